@@ -22,7 +22,7 @@ from typing import List, Tuple
 from ..ctx import Ctx
 from ..model import AnalysisError, FuncInfo, norm, walk_no_nested
 from ..report import DISCHARGED, VIOLATED, RuleResult
-from ..util import has_escape
+from ..util import enclosing_loop, has_escape
 
 BASE = "json_to_models/models/base.py"
 META = "json_to_models/dynamic_typing/models_meta.py"
@@ -348,6 +348,19 @@ def rule_uniq1(ctx: Ctx) -> RuleResult:
                 rr.ob(g.relpath, g.qualname, norm(x)[:70], "a label is free only if the table of labels has no entry for it", VIOLATED,
                       f"`{norm(x)[:50]}`: an entry that is None (a label reserved for a class name) or \"\" (owned by the empty key) counts as "
                       f"no entry: the field takes the name of the class nested next to it / two keys share one field", x.lineno)
+            # ... and so does a comparison that puts None among the 'free' answers: `table.get(label) not in (None, name)` / `is None`
+            if isinstance(x, ast.Compare) and len(x.ops) == 1 and isinstance(x.left, (ast.Call, ast.Subscript)) and "self._" in norm(x.left) \
+                    and (".get(" in norm(x.left) or isinstance(x.left, ast.Subscript)):
+                c0 = x.comparators[0]
+                none_free = (isinstance(x.ops[0], (ast.In, ast.NotIn)) and isinstance(c0, (ast.Tuple, ast.List, ast.Set)) and any(
+                    isinstance(e, ast.Constant) and e.value is None for e in c0.elts)) or (
+                    isinstance(x.ops[0], (ast.Is, ast.IsNot, ast.Eq, ast.NotEq)) and isinstance(c0, ast.Constant) and c0.value is None)
+                if none_free:
+                    rr.instances += 1
+                    rr.ob(g.relpath, g.qualname, norm(x)[:70], "a label is free only if the table of labels has no entry for it", VIOLATED,
+                          f"`{norm(x)[:50]}`: an entry that is None marks a label reserved for the class name of a nested model; counting it as "
+                          f"free lets the field take that name (key \"1day\" holding an object: class one_day and field one_day in one body)",
+                          x.lineno)
     # overrides go through the base conversion (or hand back the key itself)
     for k in prog.subclasses(base, strict=True):
         for g in k.methods.get("convert_field_name", []):
@@ -1022,4 +1035,73 @@ def rule_label6(ctx: Ctx) -> RuleResult:
            if ident_filter and start_alpha else
            "only `\\W` is removed: with unicode conversion off the key \"a৴\" (U+09F4) gives the field `a৴`, a SyntaxError in the "
            "generated module"), f.node.lineno)
+    return rr
+
+
+# ---------------------------------------------------------------------------------------------------------------
+def rule_uniq6(ctx: Ctx) -> RuleResult:
+    """The de-duplication of class names sees every class of the module and records every name it hands out."""
+    from ..paths import enumerate_paths
+    rr = RuleResult("UNIQ-6", "class-name de-duplication covers every nesting level and records every name it assigns", floor=2)
+    f = ctx.prog.func(BASE, "_fix_class_name_duplicates")
+    mod = f.module
+    # (a) the models are collected from every level: a function that calls itself on the nested generators, or a work list
+    rr.instances += 1
+    helpers = [g for g in ctx.prog.all_funcs() if g.parent is f]
+    scopes = [f] + helpers + [h for h in mod.all_funcs if h.parent is None and any(
+        isinstance(c, ast.Call) and isinstance(c.func, ast.Name) and c.func.id == h.name for c in walk_no_nested(f.node)) and h is not f]
+    recursive = [g for g in scopes if any(isinstance(c, ast.Call) and isinstance(c.func, ast.Name) and c.func.id == g.name
+                                          for c in walk_no_nested(g.node))]
+    worklist = [g for g in scopes if any(isinstance(w, ast.While) and isinstance(w.test, ast.Name) and any(
+        isinstance(c, ast.Call) and isinstance(c.func, ast.Attribute) and c.func.attr in ("pop", "popleft") and norm(c.func.value) == w.test.id
+        for c in ast.walk(w)) and any(isinstance(c, ast.Call) and isinstance(c.func, ast.Attribute) and c.func.attr in ("append", "extend")
+                                      and norm(c.func.value) == w.test.id for c in ast.walk(w)) for w in walk_no_nested(g.node))]
+    ok = bool(recursive or worklist)
+    rr.ob(f.relpath, f.qualname, "collection of the models of every level",
+          "the generators form a tree (classes nested in classes nested in classes): the models are gathered by a function that calls "
+          "itself on the nested generators, or by a work list", DISCHARGED if ok else VIOLATED,
+          f"{(recursive or worklist)[0].qualname} walks the whole tree" if ok else
+          "nothing recurses into the nested generators and there is no work list: classes below the second level are not de-duplicated, "
+          "so `cafe` at the top and `café` three levels down both become `Cafe` in the nested layout (and `Cafe` / `Cafe_` in the flat one)",
+          f.node.lineno)
+    # (b) every name handed out is recorded: on every way through the loop body the set tested by `while <name> in <used>` gets <name>
+    loops = [w for w in walk_no_nested(f.node) if isinstance(w, ast.While) and isinstance(w.test, ast.Compare) and len(w.test.ops) == 1
+             and isinstance(w.test.ops[0], ast.In) and isinstance(w.test.comparators[0], ast.Name)]
+    if not loops:
+        raise AnalysisError("UNIQ-6: the `while <name> in <used>` loop of _fix_class_name_duplicates was not found")
+    w = loops[0]
+    name_expr, used = norm(w.test.left), w.test.comparators[0].id
+    outer = enclosing_loop(mod, w)
+    if not isinstance(outer, ast.For):
+        raise AnalysisError("UNIQ-6: the renaming loop over the models was not found")
+    rr.instances += 1
+    bad = None
+    for pth in enumerate_paths(outer.body):
+        if pth.exit == "raise":
+            continue
+        def recorded(s_):
+            """the expression a statement puts into `used`: used.add(x), used.update((x,)) / ({x}) / ([x]), used |= {x}"""
+            if isinstance(s_, ast.Expr) and isinstance(s_.value, ast.Call) and isinstance(s_.value.func, ast.Attribute) \
+                    and norm(s_.value.func.value) == used and len(s_.value.args) == 1:
+                a_ = s_.value.args[0]
+                if s_.value.func.attr == "add":
+                    return a_
+                if s_.value.func.attr == "update" and isinstance(a_, (ast.Tuple, ast.List, ast.Set)) and len(a_.elts) == 1:
+                    return a_.elts[0]
+            if isinstance(s_, ast.AugAssign) and isinstance(s_.op, ast.BitOr) and norm(s_.target) == used and isinstance(s_.value, ast.Set) \
+                    and len(s_.value.elts) == 1:
+                return s_.value.elts[0]
+            return None
+        late = [(s_, recorded(s_)) for s_ in pth.stmts() if recorded(s_) is not None and s_.lineno > w.lineno]
+        if not late:
+            bad = f"on the path `{pth.describe()[:70]}` nothing is added to `{used}` after the name was chosen"
+            break
+        if not any(norm(x) == name_expr for _, x in late):
+            bad = (f"`{norm(late[0][0])[:50]}` records another expression than the one the loop makes unique (`{name_expr}`): the name "
+                   f"that was just handed out is not taken into account for the next model")
+            break
+    rr.ob(f.relpath, f.qualname, f"{used}.add({name_expr})", "the name a class ends up with is recorded as taken before the next class is "
+          "looked at, on every way through the loop", VIOLATED if bad else DISCHARGED,
+          bad + ": three classes that fall together (`café`, `cafe`, `cafè`) give `Cafe`, `Cafe_`, `Cafe_`" if bad else
+          "recorded on every path, as the very name the loop settled on", w.lineno)
     return rr
